@@ -82,6 +82,7 @@ type Config struct {
 	ClockVaryPct int  // percent of clock reads that see a non-canonical step (stall, fine step, jump)
 	CPUVary      bool // the CPU count the library is told differs from the canonical 4
 	RandVary     bool // the process-wide random source is seeded differently from the canonical run
+	KeepPools    bool // the pools keep what earlier runs of this process left in them (no GC in between)
 
 	// failpoint panic: the PanicAtHit-th FP hit (1-based, counted among
 	// panic-capable sites while armed) panics. Armed per operation by the harness.
@@ -460,7 +461,9 @@ func Begin(cfg Config) {
 			R.fpYield[i] = cfg.Tape.choose(KFault, 100) < cfg.FPYieldPct
 		}
 	}
-	resetPools()
+	if !cfg.KeepPools {
+		resetPools()
+	}
 	resetAddrs()
 	resetChans()
 	resetClock()
